@@ -221,7 +221,7 @@ func loadEngine(pkgs []string) (*gosym.Engine, error) {
 	}
 	e := gosym.NewEngine(modulePath)
 	e.Progress = os.Getenv("VERIF_PROGRESS") != ""
-	e.SyncGo = []string{"(*" + modulePath + "/coreV2/appdb.AppDB).Snapshot"}
+	e.SyncGo = []string{"(*" + modulePath + "/coreV2/appdb.AppDB).Snapshot", "(*" + modulePath + "/coreV2/minter.Blockchain).Commit"}
 	if w := os.Getenv("VERIF_WORKERS"); w != "" {
 		if n, err := strconv.Atoi(w); err == nil {
 			e.Workers = n
